@@ -538,7 +538,7 @@ def execMethodSize (c : Ctx) (item : ItemK) (s : St) (nx : Option Node) (v : Ite
   match v with
   | .arr xs => executeNextItem c item s nx (.int xs.length) f
   | _ =>
-    if !c.lax && !s.ignoreSE then returnVerboseError s f
+    if !c.lax then structural s f   -- below `.**` the item is skipped (repair D32), otherwise an error
     else executeNextItem c item s nx (.int 1) f
 
 /-- outcome of the value conversion of an item method -/
@@ -1013,7 +1013,7 @@ def arrayOf (c : Ctx) (v : Item) : Option (List Item) :=
 def execArrayIndex (c : Ctx) (item : ItemK) (s : St) (subs : List Node) (nx : Option Node)
     (v : Item) (f : Found) : Res :=
   match arrayOf c v with
-  | none => returnVerboseError s f
+  | none => structural s f   -- strict mode, not an array: an error unless below `.**` (repair D31)
   | some xs =>
     let s0 := { s with innermost := xs.length }
     let a := subs.foldl (indexSubStep c item nx xs v) ⟨s0, f, .notFound, none, none⟩
